@@ -49,11 +49,11 @@ Definition current : fixes := {|
   fx_kid := true;              (* /repo 6239920 *)
   fx_urlgen_create := true;    (* /repo 4a5b51b *)
   fx_urlgen_drms := true;      (* /repo 44cd2ab *)
-  fx_nan := false;             (* proposed, not applied *)
-  fx_segnr404 := false;        (* proposed, not applied *)
-  fx_time404 := false;         (* proposed, not applied *)
-  fx_mpd_status := false;      (* proposed, not applied *)
-  fx_stop_order := false       (* proposed, not applied *)
+  fx_nan := true;     (* /repo d64e034 *)
+  fx_segnr404 := true;     (* /repo d34e4da *)
+  fx_time404 := true;     (* /repo 33c7128 *)
+  fx_mpd_status := true;     (* /repo e7eedfb *)
+  fx_stop_order := true     (* /repo 1df8e52 *)
 |}.
 
 Definition all_fixed : fixes := {|
